@@ -64,20 +64,48 @@ class ProcRun:
         e.pop("PYTHONPATH", None)
         return e
 
+    def owns_port(self):
+        """is the socket listening on self.port one of OUR server process' descriptors?  (two runs may have been handed the
+        same free port: the loser's server dies at bind, and a connection test alone would be answered by the winner's)"""
+        want = "%04X" % self.port
+        inodes = set()
+        for table in ("/proc/net/tcp", "/proc/net/tcp6"):
+            try:
+                with open(table) as fh:
+                    for line in fh.readlines()[1:]:
+                        f = line.split()
+                        if f[1].rsplit(":", 1)[1] == want and f[3] == "0A":
+                            inodes.add(f[9])
+            except OSError:
+                pass
+        try:
+            for fd in os.listdir("/proc/%d/fd" % self.server.pid):
+                try:
+                    t = os.readlink("/proc/%d/fd/%s" % (self.server.pid, fd))
+                except OSError:
+                    continue
+                if t.startswith("socket:[") and t[8:-1] in inodes:
+                    return True
+        except OSError:
+            pass
+        return False
+
     def start_server(self):
-        for attempt in range(5):
+        for attempt in range(8):
             self.port = free_port()
             self.server = subprocess.Popen([PY, "-B", os.path.join(REPO, "run_server.py"), "start", "--host", "127.0.0.1", "--port", str(self.port)],
                                            cwd=REPO, env=self.env(self.shome), stdout=self.slog, stderr=self.slog, stdin=subprocess.DEVNULL)
             t0 = time.time()
-            while time.time() - t0 < 60:
+            while time.time() - t0 < 90:
                 if self.server.poll() is not None:
                     break
-                try:
-                    socket.create_connection(("127.0.0.1", self.port), timeout=0.5).close()
-                    return
-                except OSError:
-                    time.sleep(0.1)
+                if self.owns_port():
+                    try:
+                        socket.create_connection(("127.0.0.1", self.port), timeout=0.5).close()
+                        return
+                    except OSError:
+                        pass
+                time.sleep(0.1)
             self.kill_server()
         raise RuntimeError("the server process did not come up (see server.log)")
 
@@ -211,8 +239,8 @@ class ProcRun:
         return self.ev
 
 
-def run_proc(scheme, k):
-    d = os.path.join(subdir("c09-proc"), "p%d" % k)
+def run_proc(scheme, k, uniq=0):
+    d = os.path.join(subdir("c09-proc"), "p%d_%d_%s" % (uniq, k, scheme.replace(".", "_")))
     os.makedirs(d, exist_ok=True)
     r = ProcRun(scheme, d, k)
     try:
